@@ -80,6 +80,8 @@ func Extra() []bgp.PathAttributeInterface {
 	if tid, err := bgp.NewIngressReplTunnelID(netip.MustParseAddr("10.0.0.10")); err == nil {
 		out = append(out, bgp.NewPathAttributePmsiTunnel(bgp.PMSI_TUNNEL_TYPE_INGRESS_REPL, true, 1000, tid))
 	}
+	// an unrecognised attribute whose short value is carried with the extended-length encoding (legal on the wire)
+	out = append(out, bgp.NewPathAttributeUnknown(bgp.BGP_ATTR_FLAG_OPTIONAL|bgp.BGP_ATTR_FLAG_TRANSITIVE|bgp.BGP_ATTR_FLAG_EXTENDED_LENGTH, 254, []byte{0x11, 0x22, 0x33, 0x44}))
 	// two next hops (global + link-local), plain and labelled-VPN
 	if a, err := bgp.NewPathAttributeMpReachNLRI(bgp.RF_IPv6_UC, []bgp.PathNLRI{{NLRI: p6}}, netip.MustParseAddr("2001:db8::1"), netip.MustParseAddr("fe80::1")); err == nil {
 		out = append(out, a)
